@@ -890,9 +890,18 @@ def cl_case_str(case, res):
         c10.expect_str(res, base))
 
 
-def check_cl(cases, out, label, zone_cache):
+def cl_public(case):
+    if case.get('regen'):
+        return dict(cls=case.get('cls'), regen=case['regen'])
+    return {k: case[k] for k in ('cls', 'tz', 'pre', 'rain', 'et', 'wl', 'bad') if k in case}
+
+
+def check_cl(cases, out, label, zone_cache, coq=True):
+    """coq=False: the large-input stage, judged by the oracles only."""
     by_zone = {}
     for case in cases:
+        if case.get('regen') and 'rain' not in case:
+            case = regen_large_case(case['regen'], zone_cache)
         z = zone_cache(case['tz'])
         d = D.scratch(PROP, 'cl_db')
         res = run_cl(case, z, d)
@@ -906,7 +915,7 @@ def check_cl(cases, out, label, zone_cache):
                 if case[key]:
                     for tag in file_profile(z, [t for t, _ in case[key]]):
                         out.count('CL:%s_file:%s' % (key, tag))
-        pub = dict(level='CL', case={k: case[k] for k in ('cls', 'tz', 'pre', 'rain', 'et', 'wl', 'bad') if k in case})
+        pub = dict(level='CL', case=cl_public(case))
         if res.get('filler_failed'):
             out.violation('oracle', 'load refused a plain well-formed dataset: %s' % res['exc'], case=pub)
             continue
@@ -954,7 +963,11 @@ def check_cl(cases, out, label, zone_cache):
                 if filled:
                     out.violation('oracle', 'load was refused (%s) but left rows in %s'
                                   % (type(res['exc']).__name__, filled), case=pub)
-        by_zone.setdefault(case['tz'], []).append((case, res, cl_case_str(case, res)))
+        if coq and not case.get('regen'):
+            by_zone.setdefault(case['tz'], []).append((case, res, cl_case_str(case, res)))
+    if not by_zone:
+        return
+
     def coq_zone(name):
         items = by_zone[name]
         pre = PRE + 'Definition z : zone := %s.\n' % zone_cache(name).coq()
@@ -973,8 +986,223 @@ def check_cl(cases, out, label, zone_cache):
             what = ('raised %s: %s' % (type(res['exc']).__name__, res['exc'])) if res['exc'] is not None else 'loaded'
             out.violation('corr', 'load_text_model <> `spowtd load` in zone %s on a %s case: implementation %s'
                           % (name, case['cls'], what),
-                          case=dict(level='CL', case={k: case[k] for k in ('cls', 'tz', 'pre', 'rain', 'et', 'wl', 'bad')
-                                                      if k in case}))
+                          case=dict(level='CL', case=cl_public(case)))
+
+
+# ------------------------------------------------------------- large malformed inputs (oracles only)
+
+def regen_large_case(r, zone_cache):
+    """A record of 1000-4100 grid steps whose only ET hole sits on / beside a multiple of a chunk size
+    (gen_load.gen_et_hole_large), written on the clock of a zone in which every instant reads back."""
+    rng = C.rng_for(r['seed'], PROP, 'large', r['stream'], r['k'])
+    for _ in range(60):
+        name = rng.choice(CL_ZONES)
+        z = zone_cache(name)
+        c = G.gen_et_hole_large(rng, r['idx'])
+        ts = sorted(t for key in ('rain', 'et', 'wl') for t, _ in c[key])
+        if not any(ts[0] - 86400 <= t <= ts[-1] + 86400 for t in z.times):
+            ok = representable(z, ts[0]) and representable(z, ts[-1])     # one offset throughout
+        else:
+            ok = all(representable(z, t) for t in ts)
+        if ok:
+            c['tz'] = name
+            c['regen'] = r
+            return c
+    raise RuntimeError('no representable large case found')
+
+
+def large_stage(seed, tier, out, zc):
+    for r in c10.large_recipes(seed, tier, prop=PROP):
+        if r['stream'] != 'et_hole':
+            continue
+        if tier == 'quick' and any(r['idx'] % c == 1 for c in (1000, 1024, 4096)):
+            continue              # quick: the multiples and one below (C10 runs one above as well)
+        c = regen_large_case(r, zc)
+        c10.large_profile(c, out, tag='CL:large:')
+        check_cl([c], out, 'large', zc, coq=False)
+
+
+# ------------------------------------------------------------- environment stage
+#
+# The conversion must not depend on the environment of the PROCESS: its local time zone (TZ), `python -O`,
+# DEBUG logging, the current directory, string hashing.  (a) function level: every (zone, text) of the FL plan,
+# plus texts around the transitions of the PROCESS zone, through generate_timestamped_rows in a child process
+# under each TZ (and -O); (b) command level: `spowtd load` of a few CL cases in a child process under every variant
+# of envcheck.workflow_env_variants(); results must equal those of the default in-process run.
+
+STAMP_CHILD = (
+    'import sys, json, pytz\n'
+    'import spowtd.load as L\n'
+    'plan = json.load(sys.stdin)\n'
+    'res = []\n'
+    'for zone, texts in plan:\n'
+    '    tz = pytz.timezone(zone)\n'
+    '    col = []\n'
+    '    for t in texts:\n'
+    '        try:\n'
+    '            rows = list(L.generate_timestamped_rows([[t, "x"]], tz))\n'
+    '            col.append(["ok", rows[0][0]])\n'
+    '        except Exception as e:\n'
+    '            col.append(["err", type(e).__name__])\n'
+    '    res.append(col)\n'
+    'json.dump(res, sys.stdout)\n')
+
+
+def stamp_child(plan, variant):
+    """plan: [(zone name, [text])] -> per text ['ok', epoch] / ['err', exception type], computed in a child
+    interpreter of the tree under test under `variant` (envcheck shape: env, opt)."""
+    import subprocess
+    from harness import envcheck as E
+    env = {k: v for k, v in os.environ.items() if k in ('PATH', 'HOME', 'LANG', 'LC_ALL', 'TMPDIR', 'LD_LIBRARY_PATH')}
+    env.update(PYTHONPATH=C.REPO, PYTHONDONTWRITEBYTECODE='1')
+    env.update(variant.get('env') or {})
+    cmd = [E.PYTHON] + (['-O'] if variant.get('opt') else []) + ['-c', STAMP_CHILD]
+    p = subprocess.run(cmd, env=env, input=json.dumps(plan), stdout=subprocess.PIPE, stderr=subprocess.PIPE,
+                       text=True, timeout=600)
+    if p.returncode != 0:
+        raise RuntimeError('stamp child failed under %s: %s' % (variant.get('name'), p.stderr[-1500:]))
+    return json.loads(p.stdout)
+
+
+def process_zone_texts(zc, declared, process_zones, per_zone):
+    """Texts, on the clock of each declared zone, of instants around the latest transitions of the PROCESS zones
+    (where a conversion that goes through the local time of the process is off by that zone's DST hour)."""
+    out = []
+    for name in declared:
+        z = zc(name)
+        texts = []
+        for pz in process_zones:
+            times = [t for t in zc(pz).times if LO_LIM < t < HI_LIM][-per_zone:]
+            for t in times:
+                for d in (-3600, -1, 0, 1, 3599, 3600, 7200):
+                    if representable(z, t + d):
+                        texts.append(z.render(t + d))
+        out.append((name, texts))
+    return out
+
+
+def env_variants(quick):
+    from harness import envcheck as E
+    return [v for v in E.workflow_env_variants() if v['name'] != 'default']
+
+
+def check_env_fl(plan, out, variants):
+    """plan: [(zone name, [text])]; the default is the in-process conversion."""
+    import pytz
+    import concurrent.futures as cf
+    base = [[impl_stamp(pytz.timezone(zn), t) for t in texts] for zn, texts in plan]
+    with cf.ThreadPoolExecutor(max_workers=4) as ex:
+        results = list(ex.map(lambda v: stamp_child(plan, v), variants))
+    for v, res in zip(variants, results):
+        nbad = 0
+        for (zn, texts), col0, col in zip(plan, base, res):
+            for text, r0, r in zip(texts, col0, col):
+                out.evaluations += 1
+                out.count('ENV:FL:' + v['name'])
+                same = (r0[0] == r[0] and (r0[1] == r[1] if r0[0] == 'ok' else type(r0[1]).__name__ == r[1]))
+                if same:
+                    if r0[0] == 'ok':
+                        out.nontriv(('env', v['name'], zn, text))
+                    continue
+                nbad += 1
+                if nbad > 3:
+                    out.count('ENV:FL:further_differences_under_' + v['name'])
+                    continue
+                got = ('epoch %d' % r[1]) if r[0] == 'ok' else r[1]
+                ref = ('epoch %d' % r0[1]) if r0[0] == 'ok' else type(r0[1]).__name__
+                out.violation('oracle', 'the timestamp %r in zone %s is converted to %s when the process runs under '
+                              '%s, to %s in the default process (the stored instant must be the one whose rendering '
+                              'in the declared zone is the text, whatever the environment)'
+                              % (text, zn, got, env_text(v), ref),
+                              case=dict(level='ENV-FL', zone=zn, text=text, variant=v['name']))
+
+
+def env_text(v):
+    bits = ['%s=%s' % kv for kv in sorted((v.get('env') or {}).items())]
+    if v.get('opt'):
+        bits.append('python -O')
+    if v.get('verbose'):
+        bits.append('-vvv')
+    if v.get('cwd'):
+        bits.append('another current directory')
+    return ', '.join(bits) or 'a plain child process'
+
+
+def check_env_cl(cases, out, zone_cache, variants_of):
+    """Each case: `spowtd load` in-process (default), then in a child process per variant into a fresh data
+    file; exit status and the logical dump of the load tables must be the same."""
+    from harness import envcheck as E
+    import concurrent.futures as cf
+    for case in cases:
+        z = zone_cache(case['tz'])
+        d = D.scratch(PROP, 'env_db')
+        res = run_cl(case, z, d)
+        out.evaluations += 1
+        paths = {n: os.path.join(d, n + '.txt') for n in ('precipitation', 'evapotranspiration', 'water_level')}
+        variants = variants_of(case)
+
+        def child(v):
+            db = os.path.join(d, 'child_%s.sqlite3' % v['name'])
+            r = E.run_cli_variant(['load', db, '-p', paths['precipitation'], '-e', paths['evapotranspiration'],
+                                   '-z', paths['water_level'], '--timezone', case['tz']], v)
+            return r, (D.dump(db, c10.LOAD_TABLES) if os.path.exists(db) else {})
+        with cf.ThreadPoolExecutor(max_workers=8) as ex:
+            results = list(ex.map(child, variants))
+        for v, (r, tables) in zip(variants, results):
+            out.evaluations += 1
+            out.count('ENV:CL:' + v['name'])
+            out.count('ENV:CL:default_run_' + ('refused' if res['exc'] is not None else 'loaded'))
+            pub = dict(level='ENV-CL', case=cl_public(case), variant=v['name'])
+            if (res['exc'] is None) != (r.rc == 0):
+                out.violation('oracle', '`spowtd load` %s under %s but %s in the default process [zone %s]: %s'
+                              % ('fails' if r.rc else 'succeeds', env_text(v),
+                                 'succeeds' if res['exc'] is None else 'is refused (%s)' % type(res['exc']).__name__,
+                                 case['tz'], E.last_error_line(r)[:300]), case=pub)
+                continue
+            if res['exc'] is not None:
+                filled = [n for n, rows in tables.items() if rows]
+                if filled:
+                    out.violation('oracle', 'load was refused under %s but left rows in %s' % (env_text(v), filled),
+                                  case=pub)
+                continue
+            diffs = E.diff_dumps(res['tables'], tables)
+            if diffs:
+                out.violation('oracle', 'the tables written by `spowtd load` under %s differ from those of the '
+                              'default process [zone %s]: %s' % (env_text(v), case['tz'], '; '.join(diffs[:3])), case=pub)
+            else:
+                out.nontriv(('envcl', v['name'], c10.digest(case)))
+
+
+def env_stage(seed, tier, out, zc, fl_plan):
+    quick = tier == 'quick'
+    variants = env_variants(quick)
+    tzv = [v for v in variants if 'TZ' in (v.get('env') or {})] + [v for v in variants if v.get('opt')]
+    rng = C.rng_for(seed, PROP, 'env')
+    pzones = [v['env']['TZ'] for v in tzv if 'TZ' in (v.get('env') or {})]
+    plan = [(z.name, list(texts)) for z, texts in fl_plan]
+    if quick:
+        plan = [(zn, texts if len(texts) <= 40 else rng.sample(texts, 40)) for zn, texts in plan]
+    plan += process_zone_texts(zc, ['UTC', 'Africa/Lagos', 'Etc/GMT-7', 'America/New_York', 'Europe/Berlin'] + pzones,
+                               pzones, 2 if quick else 8)
+    check_env_fl(plan, out, tzv)
+    # command level
+    cases = [gen_cl_span_case(rng, zc, 'span1'), gen_cl_case(rng, zc, rng.choice(['et_missing', 'nonuniform_inside']))]
+    if not quick:
+        cases += [gen_cl_span_case(rng, zc, k) for k in ('span2', 'year', 'fold')] + \
+                 [gen_cl_case(rng, zc, k) for k in ('same', 'et_missing', 'nonuniform_inside', 'bad_text', 'duplicate',
+                                                    'finer_gappy', 'little_overlap')]
+    for c in cases:
+        c['pre'] = None
+
+    tz_only = [v for v in variants if 'TZ' in (v.get('env') or {})]
+    opt_only = [v for v in variants if v.get('opt')]
+    # quick: every variant on the valid record laid over a transition; one process zone and -O (the assert
+    # statements are gone) on a malformed one
+    wanted = {id(c): variants for c in cases}
+    if quick:
+        wanted[id(cases[1])] = [rng.choice(tz_only)] + opt_only
+    variants_of = lambda case: wanted[id(case)]                              # noqa: E731
+    check_env_cl(cases, out, zc, variants_of)
 
 
 # ------------------------------------------------------------- entry points
@@ -1028,6 +1256,8 @@ def run(ctx, out):
     ns = 18 if quick else 180
     cases += [gen_cl_span_case(rng_s, zc, CL_SPAN_KINDS[k % len(CL_SPAN_KINDS)]) for k in range(ns)]
     check_cl(cases, out, 'cl', zc)
+    large_stage(seed, tier, out, zc)
+    env_stage(seed, tier, out, zc, plan)
     out.rule = ('FL: for each zone, texts rendered from instants around transitions (+-{0,1s,1h,1d}), the local '
                 'readings at both sides of each transition, LMT-era and random instants, plus malformed texts, '
                 'through generate_timestamped_rows. CL: gen_load cases written in a non-UTC zone through `spowtd '
@@ -1038,7 +1268,15 @@ def run(ctx, out):
                 'call of generate_timestamped_rows, every row judged like an FL text; non-trivial: rows of files '
                 'whose two ends share an offset that does not hold in between. CL also: such records as the three '
                 'input files (dst_* classes), ET records starting late / ending early / with holes, and a '
-                'non-uniform rainfall step closed exactly at the last (first) water-level timestamp.')
+                'non-uniform rainfall step closed exactly at the last (first) water-level timestamp. LARGE-INPUT '
+                'STAGE (oracle only, not sent to Coq: reading the literals dominates): records of 1000-4100 grid '
+                'steps whose only ET hole sits on / one beside a multiple of 1000, 1024, 4096 must be refused '
+                '(CL:large:* counts). ENVIRONMENT STAGE: the FL texts plus texts around the transitions of the '
+                'PROCESS zone through generate_timestamped_rows in a child process under TZ=Asia/Tokyo / '
+                'America/St_Johns / Europe/Berlin and under python -O, and `spowtd load` of valid and malformed CL '
+                'cases in a child process under every variant of envcheck (TZ x 3, -O, -vvv, another current '
+                'directory, PYTHONHASHSEED=random): epochs / exit status / tables must equal the default run '
+                '(ENV:* counts).')
     out.samples = [dict(level='FL', zone=plan[3][0].name, texts=plan[3][1][:4])]
     out.assumptions += [
         'pytz localize (the search among the offsets in force a day before / after) is an oracle, compared on '
@@ -1068,5 +1306,15 @@ def replay(case, out):
         if r[0] == 'ok' and (ref[0] != 'ok' or r[1] != ref[1]):
             out.violation('oracle', 'the spelling %r of the timestamp %r in zone %s is stored as %r, the canonical '
                           'spelling as %r' % (case['variant'], case['text'], case['zone'], r[1], ref[1:]), case=case)
+    elif case['level'] == 'ENV-FL':
+        from harness import envcheck as E
+        check_env_fl([(case['zone'], [case['text']])], out, [E.variant_by_name(case['variant'])])
+    elif case['level'] == 'ENV-CL':
+        from harness import envcheck as E
+        c = case['case']
+        if c.get('regen'):
+            c = regen_large_case(c['regen'], zc)
+        check_env_cl([c], out, zc, lambda _c: [E.variant_by_name(case['variant'])])
     else:
-        check_cl([case['case']], out, 'replay', zc)
+        c = case['case']
+        check_cl([c], out, 'replay', zc, coq=not c.get('regen'))
